@@ -93,6 +93,10 @@ func serializeQueries(fs *h.ForkSession, b *strings.Builder) {
 				}
 				fmt.Fprintf(b, "  Children=%v\n", ch)
 				fmt.Fprintf(b, "  IndicesOfChanges=%q\n", sc.IndicesOfChanges(a, p[0], idx...))
+				// the by-slot query at this key's location under a type id registered for no key: whatever it
+				// answers, it must answer the same in every repetition
+				oc, oerr := sc.Slot(a, key.Slot(), uint256.NewInt(uint64(key.Offset())), common.Hash(h.TypeID(9).Bytes32()))
+				fmt.Fprintf(b, "  SlotUnderOtherType=%s refused=%v\n", canonReal(oc), oerr != nil)
 				walk(ref.ID, p)
 			}
 		}
@@ -171,7 +175,22 @@ func manyChildrenProgram(r *h.RNG, n int) []byte {
 	w.Or(w, h.U(10))
 	a.Push32(w).PushU(22).Op(h.SSTORE)
 	a.Journal(h.VRJNAL, h.U(22), jTypStr)
-	a.PushU(uint64(r.Intn(7))).PushU(0).Op(h.MSTORE).PushU(32).PushU(0).Op(h.RETURN)
+	// several keys of different types at ONE location, as Solidity lays out a struct (the struct variable and its
+	// first member both start at the struct's slot, offset 0) and a static array (the array and element 0): journaled
+	// under each registered type, and finally - in half of the programs, as the frame's last instruction, because it is
+	// refused - under a type id registered for none of them
+	jTypStruct := h.TypeID(6)
+	a.MstoreName(memJ, []byte("st")).Journal(h.RSVJNAL, h.U(memJ), h.U(30), jTypStruct)
+	a.Journal(h.IVVVJNAL, h.U(30), h.U(30), h.U(0), h.U(0), jTypU, jTypStruct)
+	a.Journal(h.IVVVJNAL, h.U(30), h.U(30), h.U(1), h.U(0), jTypP, jTypStruct)
+	a.PushU(uint64(1 + r.Intn(200))).PushU(30).Op(h.SSTORE)
+	a.Journal(h.VVJNAL, h.U(30), h.U(0), h.U(32), jTypU)
+	a.Journal(h.VVJNAL, h.U(30), h.U(0), h.U(16), jTypP)
+	a.PushU(uint64(r.Intn(7))).PushU(0).Op(h.MSTORE)
+	if r.Bool() {
+		a.Journal(h.VVJNAL, h.U(30), h.U(0), h.U(32), h.TypeID(7))
+	}
+	a.PushU(32).PushU(0).Op(h.RETURN)
 	return a.Bytes()
 }
 
